@@ -260,7 +260,7 @@ void ezc3d::ParametersNS::Parameters::write(std::fstream &f) const
     // Go back to data start blank space and write the actual position
     actualPos = f.tellg();
     f.seekg(dataStartPosition);
-    nBlocksToNext = int(actualPos)/512;
+    nBlocksToNext = int(actualPos)/512 + 1; // blocks are numbered from 1
     if (int(actualPos) % 512 > 0)
         ++nBlocksToNext;
     f.write(reinterpret_cast<const char*>(&nBlocksToNext), ezc3d::BYTE);
